@@ -542,7 +542,14 @@ func GenDirective(t *rapid.T, p *Profile, pools *Pools, year *int, o JournalOpts
 	case "commodity":
 		return &m.Directive{Kind: "commodity", Fmt: GenFmt(t, p, rapid.SampledFrom(pools.Syms).Draw(t, "dsym"))}
 	case "commodity-sub":
-		return &m.Directive{Kind: "commodity-sub", Fmt: GenFmt(t, p, rapid.SampledFrom(pools.Syms).Draw(t, "dsym")), Indent: rapid.SampledFrom([]string{"  ", "    "}).Draw(t, "dind")}
+		d := &m.Directive{Kind: "commodity-sub", Fmt: GenFmt(t, p, rapid.SampledFrom(pools.Syms).Draw(t, "dsym")), Indent: rapid.SampledFrom([]string{"  ", "    "}).Draw(t, "dind")}
+		if !p.off("dir.subdirective-tab") && rapid.IntRange(0, 4).Draw(t, "subsep") == 0 {
+			d.SubSep = rapid.SampledFrom([]string{"\t", "  "}).Draw(t, "subsepv")
+		}
+		if !p.off("dir.subdirective-note") && rapid.IntRange(0, 4).Draw(t, "subnote") == 0 {
+			d.SubNote = rapid.SampledFrom([]string{"note the usual one", "note a remark  ; with a comment", "; only a comment"}).Draw(t, "subnotev")
+		}
+		return d
 	case "commodity-nofmt":
 		return &m.Directive{Kind: "commodity", Sym: rapid.SampledFrom(pools.Syms).Draw(t, "dsym")}
 	case "include":
